@@ -67,6 +67,7 @@ type MemStore struct {
 	extents       []ReadExtent
 	nextHandle    int
 	ReadDelay     time.Duration
+	OpenDelay     time.Duration // OpenFile takes this long and counts as a call in progress in the read gauge
 	// DeferTombstone: tombstoned files stay readable (a store that garbage-collects lazily)
 	DeferTombstone bool
 	// HonourCtx: CreateFile, OpenFile, TombstoneFile (and FaultMeta.Update) refuse a context that is already
@@ -271,6 +272,17 @@ type memReader struct {
 
 func (s *MemStore) OpenFile(ctx context.Context, ptr []byte) (io.ReadSeekCloser, error) {
 	name := string(ptr)
+	if d := s.OpenDelay; d > 0 {
+		cur := s.readsInFlight.Add(1)
+		for {
+			m := s.maxReads.Load()
+			if cur <= m || s.maxReads.CompareAndSwap(m, cur) {
+				break
+			}
+		}
+		time.Sleep(d)
+		defer s.readsInFlight.Add(-1)
+	}
 	if s.call("open", name, 0) {
 		return nil, errInjected
 	}
